@@ -207,7 +207,11 @@ class Ctx:
             "wall_s": round(wall, 2),
             "violations": len(self.violations),
         }
-        with open(os.path.join(EVIDENCE_DIR, self.prop + ".json"), "w") as fh:
+        # extension checks (ids X01, X02, ... : behaviour of the system beyond the listed properties) keep
+        # their evidence apart from the properties' evidence files
+        ev_dir = os.path.join(EVIDENCE_DIR, "extensions") if self.prop.startswith("X") else EVIDENCE_DIR
+        os.makedirs(ev_dir, exist_ok=True)
+        with open(os.path.join(ev_dir, self.prop + ".json"), "w") as fh:
             json.dump(ev, fh, indent=1, default=str)
         shutil.rmtree(self.work, ignore_errors=True)
         print(
